@@ -377,7 +377,9 @@ class Report:
         Python: ERROR (exit 3), never a verdict about the property."""
         import zlib
 
-        if (zlib.crc32((name + str(self.seed)).encode()) % 50) != 0:
+        # ~10 % of the first 300 cases a process checks, ~2 % afterwards
+        self._cc_seen = getattr(self, "_cc_seen", 0) + 1
+        if (zlib.crc32((name + str(self.seed)).encode()) % (10 if self._cc_seen <= 300 else 50)) != 0:
             return
         from .numeval import evalf
 
